@@ -391,12 +391,32 @@ pub fn exec(pool: &Pool, ri: usize, variant: u8, ctx: &mut Ctx) -> (String, Resu
             Ok(c) => format!("{:?}", difficulty.strains(&c)),
             Err(e) => format!("{e:?}"),
         },
+        // variant bit 4: the builder is not fresh when `calculate()` runs — `generate_state()` was called on it
+        // once or twice before (it takes `&mut self` and writes the generated values back; the property says the
+        // result carries no dependence on previous calls). Seed C01-generate-state-writes-back-map-max-combo.
         Op::Perf(s) => match Performance::new(map).try_mode(gm) {
-            Ok(p) => format!("{:?}", apply_score(p.difficulty(difficulty.clone()), s).calculate()),
+            Ok(p) => {
+                let mut p = apply_score(p.difficulty(difficulty.clone()), s);
+                if variant & 4 != 0 {
+                    let first = format!("{:?}", p.generate_state());
+                    let second = format!("{:?}", p.generate_state());
+                    if first != second {
+                        // differs from the fresh builder's response, so the history oracle reports it
+                        return format!("generate_state() twice on one builder: first {first}, second {second}");
+                    }
+                }
+                format!("{:?}", p.calculate())
+            }
             Err(_) => "not-convertible".to_owned(),
         },
         Op::PerfFromAttrs(s) => match grad::one_shot(&difficulty, map, gm) {
-            Ok(a) => format!("{:?}", apply_score(Performance::new(a).difficulty(difficulty.clone()), s).calculate()),
+            Ok(a) => {
+                let mut p = apply_score(Performance::new(a).difficulty(difficulty.clone()), s);
+                if variant & 4 != 0 {
+                    let _ = p.generate_state();
+                }
+                format!("{:?}", p.calculate())
+            }
             Err(e) => e,
         },
         Op::GradDiff(ns) => match GradualDifficulty::new_with_mode(difficulty.clone(), map, gm) {
